@@ -35,6 +35,8 @@ static const char *DICT_TEXT = "a AH\n"
                                "caf\xc3\xa9 K AE F\n"
                                "ctl\x01x T AH\n";
 static char DICT_PATH[512];
+static int DC_ADDWORDS; /* --addwords 1: the dictionary is built with decoder_add_word instead of being read from the file: the
+                           lazily filled cross-word triphone tables must give the same models */
 
 static void
 dc_write_dict(void)
@@ -47,7 +49,12 @@ dc_write_dict(void)
         perror(DICT_PATH);
         exit(2);
     }
-    fputs(DICT_TEXT, fp);
+    if (DC_ADDWORDS) {
+        /* only the first entry comes from the file; the rest is added at run time (dc_make_decoder) */
+        const char *nl = strchr(DICT_TEXT, '\n');
+        fwrite(DICT_TEXT, 1, (size_t)(nl - DICT_TEXT) + 1, fp);
+    } else
+        fputs(DICT_TEXT, fp);
     fclose(fp);
 }
 
@@ -170,6 +177,27 @@ dc_make_decoder(const dc_conf_t *c)
     if (!d) {
         fprintf(stderr, "decoder_init failed\n");
         exit(2);
+    }
+    if (DC_ADDWORDS) {
+        const char *p = strchr(DICT_TEXT, '\n');
+        while (p && p[1]) {
+            char line[128], *sp;
+            const char *e = strchr(p + 1, '\n');
+            size_t l = e ? (size_t)(e - p - 1) : strlen(p + 1);
+            if (l >= sizeof line)
+                l = sizeof line - 1;
+            memcpy(line, p + 1, l);
+            line[l] = 0;
+            sp = strchr(line, ' ');
+            if (sp) {
+                *sp = 0;
+                if (decoder_add_word(d, line, sp + 1, !(e && e[1])) < 0) {
+                    fprintf(stderr, "decoder_add_word(%s) failed\n", line);
+                    exit(2);
+                }
+            }
+            p = e;
+        }
     }
     return d;
 }
